@@ -9,3 +9,6 @@ import TradingVerif.Props.C12
 #print axioms TV.truncK_eq_zero_iff
 #print axioms TV.truncK_int
 #print axioms TV.truncK_sign
+#print axioms TV.makeTrades_spec
+#print axioms TV.emitted_iff
+#print axioms TV.liquidation_never_filtered
